@@ -132,7 +132,7 @@ func (tt *TypeTable) sliceSort(elem types.Type) string {
 	name := "Sl_" + mangle(es)
 	if !tt.done[name] {
 		tt.done[name] = true
-		tt.decls = append(tt.decls, fmt.Sprintf("(declare-datatypes ((%s 0)) (((mk_%s (arr_%s (Array Int %s)) (off_%s Int) (len_%s Int)))))", name, name, name, es, name, name))
+		tt.decls = append(tt.decls, fmt.Sprintf("(declare-datatypes ((%s 0)) (((mk_%s (arr_%s (Array Int %s)) (len_%s Int)))))", name, name, name, es, name))
 	}
 	return name
 }
@@ -191,6 +191,7 @@ func (tt *TypeTable) emitStruct(name string, st *types.Struct) {
 	for i := 0; i < st.NumFields(); i++ {
 		f := st.Field(i)
 		fs = append(fs, fmt.Sprintf("(%s %s)", fieldSel(name, f.Name()), tt.fieldSort(f.Type())))
+		projIndex[fieldSel(name, f.Name())] = i
 	}
 	if len(fs) == 0 {
 		fs = append(fs, fmt.Sprintf("(%s Int)", fieldSel(name, "_unit")))
